@@ -157,6 +157,34 @@ def c092(ctx):
               "load_block is dominated by successful sanity_check of index_block and filter_block",
               "sanity_check of index/filter block metadata no longer dominates the first block load", pt=pt)
     ctx.order_chain(R, f, [("load_block(index)", lb), ("load_filter_block", lf)])
+    # the chain must close: every extent that sizes a read ends within the file.  Proved with the bounds prover from the gates
+    # that dominate the load (transitively) and the postcondition start < limit of the successful sanity_check calls.
+    from blue import bounds as B
+    bf = B.BF(ctx.prog, f)
+    fsz = None
+    for b in P.switch_blocks(f):
+        for (x, op, y) in bf.edge_facts(b.idx, "sw:0"):
+            if op == "<=" and x == ("c", 8) and fsz is None:
+                fsz = y
+    ctx.check(R, f, "file-size-term", fsz is not None, "the file size is the result of seek(End) compared with 8", "the file-size comparison was not found")
+    if fsz is not None:
+        for label, pts in (("index block", lb[:1]), ("filter block", lf[:1])):
+            for pt in pts:
+                t = P.term_at(f, pt)
+                root = bf.root(t["args"][1])
+                if root[0] != "pl":
+                    ctx.violate(R, f, "extent-in-file", "the metadata handed to the %s load is not a plain place" % label, pt=pt)
+                    continue
+                post = []
+                for g_ in K.call_guards(f, pt, r"sst::BlockMetadata::sanity_check$"):
+                    r2 = bf.root(g_["t"]["args"][0])
+                    if r2[0] == "pl":
+                        post.append((("pl", r2[1], r2[2] + ("start",)), "<", ("pl", r2[1], r2[2] + ("limit",))))
+                bf.assume(pt, post)
+                why = bf.prove(("pl", root[1], root[2] + ("limit",)), False, fsz, pt)
+                ctx.check(R, f, "extent-in-file", bool(why), "the %s extent ends within the file (%s)" % (label, why),
+                          "nothing bounds the end of the %s extent by the file size: a trailer that restates a field (an appended suffix) sizes "
+                          "the read -- and its allocation -- arbitrarily" % label, pt=pt)
     g = ctx.fn(R, "sst::BlockMetadata::sanity_check")
     if g:
         oks = P.ok_points(g)
